@@ -139,6 +139,10 @@ STATEMENT_STATUS: Dict[str, str] = {
                                         "space / comments between tokens, inert keywords, stray integers) tokeniser + "
                                         "stack machine return exactly the written pairs, no exception (was: "
                                         "kernel-evaluated instances only); rtItems_ok: non-vacuity",
+    "getFont_direct / init_fonts_own_dictionary": "proved: PDFPageInterpreter.init_resources (model initFonts) - a font dictionary "
+        "written directly (no object id) is never served from / stored in the font cache, and every entry of a /Font resource "
+        "dictionary (referenced or direct, any order, cache on or off, any earlier pages) gets the font of ITS OWN dictionary; "
+        "judged on the real page path by run_fontres",
     "getFont_transparent / font_cache_transparent": "proved: PDFResourceManager.get_font with or without caching returns "
                                                     "for every request sequence exactly the freshly constructed fonts",
 }
@@ -918,6 +922,212 @@ def impl_fonts(fss: List[Dict[str, Any]]) -> List[Any]:
         b = _impl_fonts_once(pdf, order, len(fss), False)
         return [x if x == y else "DIFF:revisit" for x, y in zip(a, b)]
     return _impl_fonts_once(pdf, order, len(fss), hashlib.sha1(pdf).digest()[0] % 2 == 0)
+
+
+# ---------------------------------------------------------------------------------------------
+# /Font resource dictionaries with SEVERAL fonts - by reference and as direct (inline) dictionaries, in any order,
+# on pages and in form XObjects, several pages sharing one resource manager, font cache on and off: each font's
+# codes must be what ITS dictionary defines, judged through the real page path (PDFPageInterpreter.init_resources)
+
+def fontres_pdf(doc: Dict[str, Any]) -> bytes:
+    """doc = {"fonts": [fs...], "pages": [{"slots": [[font index, inline?], ...], "form": bool}, ...]}.
+    A referenced font index is ONE object shared by every page that refers to it; an inline slot writes the font
+    dictionary directly into the resource dictionary.  Page content: every slot in turn shows all 256 codes."""
+    objs: Dict[int, Any] = {1: {"Type": "Catalog", "Pages": W.Ref(2)}}
+    n = 10
+    fdicts: List[Any] = []
+    frefs: List[int] = []
+    for fs in doc["fonts"]:
+        fo, fref = font_objects(fs, n)
+        objs.update(fo)
+        frefs.append(fref)
+        fdicts.append(fo[fref])
+        n = fref + 1
+    kids = []
+    for pg in doc["pages"]:
+        fontres: Dict[str, Any] = {}
+        content = b"BT"
+        for k, (fi, inline) in enumerate(pg["slots"]):
+            fontres["F%d" % k] = dict(fdicts[fi]) if inline else W.Ref(frefs[fi])
+            content += b" /F%d 1 Tf <" % k + bytes(range(256)).hex().encode() + b"> Tj"
+        content += b" ET"
+        if pg.get("form"):
+            objs[n] = W.Stream({"Type": "XObject", "Subtype": "Form", "BBox": [0, 0, 612, 792],
+                                "Resources": {"Font": fontres}}, content)
+            objs[n + 1] = W.Stream({}, b"/X0 Do")
+            res: Dict[str, Any] = {"XObject": {"X0": W.Ref(n)}}
+            cref = n + 1
+            n += 2
+        else:
+            objs[n] = W.Stream({}, content)
+            res = {"Font": fontres}
+            cref = n
+            n += 1
+        objs[n] = {"Type": "Page", "Parent": W.Ref(2), "Contents": W.Ref(cref), "Resources": res,
+                   "MediaBox": [0, 0, 612, 792]}
+        kids.append(W.Ref(n))
+        n += 1
+    objs[2] = {"Type": "Pages", "Kids": kids, "Count": len(kids)}
+    return W.build_pdf(objs, 1)
+
+
+def impl_fontres(doc: Dict[str, Any], caching: bool) -> List[Any]:
+    """Per page: list (one per slot) of 256 (text, adv), or 'EXC:Type' / 'COUNT:n' for the page."""
+    from pdfminer.converter import PDFPageAggregator
+    from pdfminer.layout import LTChar, LTFigure
+    from pdfminer.pdfdocument import PDFDocument
+    from pdfminer.pdfinterp import PDFPageInterpreter, PDFResourceManager
+    from pdfminer.pdfpage import PDFPage
+    from pdfminer.pdfparser import PDFParser
+    d = PDFDocument(PDFParser(io.BytesIO(fontres_pdf(doc))))
+    rm = PDFResourceManager(caching=caching)
+    dev = PDFPageAggregator(rm, laparams=None)
+    interp = PDFPageInterpreter(rm, dev)
+    out: List[Any] = []
+
+    def chars(item, acc):
+        if isinstance(item, LTChar):
+            acc.append((item.get_text(), item.adv))
+        elif isinstance(item, LTFigure) or hasattr(item, "__iter__"):
+            for ch in item:
+                chars(ch, acc)
+
+    for pg, page in zip(doc["pages"], PDFPage.create_pages(d)):
+        try:
+            interp.process_page(page)
+            acc: List[Any] = []
+            chars(dev.get_result(), acc)
+            if len(acc) != 256 * len(pg["slots"]):
+                out.append("COUNT:%d" % len(acc))
+            else:
+                out.append([acc[256 * k:256 * (k + 1)] for k in range(len(pg["slots"]))])
+        except Exception as e:  # noqa: BLE001
+            out.append("EXC:" + type(e).__name__)
+    return out
+
+
+def fontres_first_bad(doc: Dict[str, Any], caching: bool) -> Optional[Tuple[int, int, Any]]:
+    """(page, slot, font_first_bad result) of the first slot whose glyphs are not what its OWN dictionary defines."""
+    try:
+        res = impl_fontres(doc, caching)
+    except Exception as e:  # noqa: BLE001
+        return (-1, -1, (-1, "exception", "pages", "EXC:" + type(e).__name__))
+    for pi, (pg, r) in enumerate(zip(doc["pages"], res)):
+        if isinstance(r, str):
+            return (pi, -1, (-1, "exception" if r.startswith("EXC") else "count", "256 glyphs per font", r))
+        for k, (fi, _inline) in enumerate(pg["slots"]):
+            bad = font_first_bad(doc["fonts"][fi], r[k])
+            if bad is not None:
+                return (pi, k, bad)
+    return None
+
+
+def gen_fontres_doc(rng) -> Tuple[Dict[str, Any], List[str]]:
+    kinds: List[str] = []
+    fonts: List[Dict[str, Any]] = []
+    while len(fonts) < rng.randint(2, 4):
+        fs, _ = gen_font(rng, force=rng.choice(["Type1", "TrueType", "Type3", "MMType1", None]))
+        if font_tie_only(fs):
+            continue
+        fs.pop("enc_indirect", None)
+        if fonts and rng.random() < 0.35:
+            # same BaseFont (and sometimes the same Encoding / Widths) as an earlier font of the document
+            o = rng.choice(fonts)
+            if fs["subtype"] != "Type3" and o["subtype"] != "Type3":
+                fs["basefont"] = o["basefont"]
+                kinds.append("fontres:same-basefont")
+                if rng.random() < 0.5:
+                    fs["enc"] = o["enc"]
+                    kinds.append("fontres:same-encoding")
+                if rng.random() < 0.3:
+                    fs["widths"], fs["fc"] = o["widths"], o["fc"]
+        fonts.append(fs)
+    pages = []
+    for _ in range(rng.randint(1, 3)):
+        slots = []
+        for _ in range(rng.randint(1, 4)):
+            slots.append([rng.randrange(len(fonts)), rng.random() < 0.45])
+        if rng.random() < 0.5 and len(slots) >= 2:
+            slots[0][1], slots[1][1] = False, True           # a referenced font, then an inline one
+        elif rng.random() < 0.3 and len(slots) >= 2:
+            slots[0][1], slots[1][1] = True, False           # the other order
+        pages.append({"slots": slots, "form": rng.random() < 0.25})
+    for pg in pages:
+        seq = "".join("I" if i else "R" for _, i in pg["slots"])
+        kinds.append("fontres:" + ("form:" if pg["form"] else "page:") + seq)
+        if "RI" in seq:
+            kinds.append("fontres:inline-after-referenced")
+        if "IR" in seq:
+            kinds.append("fontres:referenced-after-inline")
+        if "II" in seq:
+            kinds.append("fontres:inline-after-inline")
+    if len(pages) > 1:
+        kinds.append("fontres:several-pages")
+    return {"fonts": fonts, "pages": pages}, kinds
+
+
+def shrink_fontres(doc: Dict[str, Any], caching: bool) -> Dict[str, Any]:
+    def fails(d) -> bool:
+        return bool(d["pages"]) and fontres_first_bad(d, caching) is not None
+    cur = doc
+    if len(cur["pages"]) > 1:
+        pages = C.ddmin(list(cur["pages"]), lambda sub: fails({"fonts": cur["fonts"], "pages": sub}), 30)
+        if fails({"fonts": cur["fonts"], "pages": pages}):
+            cur = {"fonts": cur["fonts"], "pages": pages}
+    new_pages = []
+    for pi, pg in enumerate(cur["pages"]):
+        if len(pg["slots"]) > 1:
+            def f2(sub, pi=pi, pg=pg):
+                ps = list(cur["pages"])
+                ps[pi] = {"slots": sub, "form": pg["form"]}
+                return fails({"fonts": cur["fonts"], "pages": new_pages + ps[len(new_pages):]})
+            slots = C.ddmin(list(pg["slots"]), f2, 30)
+            cand = {"slots": slots, "form": pg["form"]}
+            ps = new_pages + [cand] + list(cur["pages"][pi + 1:])
+            new_pages.append(cand if fails({"fonts": cur["fonts"], "pages": ps}) else pg)
+        else:
+            new_pages.append(pg)
+    cand = {"fonts": cur["fonts"], "pages": new_pages}
+    if fails(cand):
+        cur = cand
+    # drop unused fonts
+    used = sorted({fi for pg in cur["pages"] for fi, _ in pg["slots"]})
+    remap = {fi: k for k, fi in enumerate(used)}
+    cand = {"fonts": [cur["fonts"][fi] for fi in used],
+            "pages": [{"slots": [[remap[fi], inl] for fi, inl in pg["slots"]], "form": pg["form"]} for pg in cur["pages"]]}
+    return cand if fails(cand) else cur
+
+
+def check_fontres(ctx: C.Ctx, docs: List[Tuple[Dict[str, Any], List[str]]], label: str = "") -> None:
+    for doc, kinds in docs:
+        if not ctx.time_left():
+            ctx.notes.append("font resource cases cut short by the time budget")
+            break
+        ctx.case(("fontres", json.dumps(doc, sort_keys=True)), True, branch=label or "fontres")
+        for k in set(kinds):
+            ctx.branch(k)
+        for caching in (True, False):
+            bad = fontres_first_bad(doc, caching)
+            if bad is None:
+                continue
+            small = shrink_fontres(doc, caching)
+            b2 = fontres_first_bad(small, caching) or bad
+            pi, k, (code, kind, exp, got) = b2
+            other = fontres_first_bad(small, not caching)
+            cfail(ctx, C.Failure(
+                "font resources: a font of a /Font resource dictionary with several fonts (referenced and inline) does "
+                "not report the text / advance its OWN dictionary defines [%s; font cache %s%s]"
+                % (kind, "on" if caching else "off", "" if other is not None else " only"),
+                {"op": "fontres", "doc": small, "caching": caching, "page": pi, "slot": k, "code": code},
+                exp, got, {"op": "fontres", "kind": kind, "caching": caching, "cache_dependent": other is None,
+                           "kinds": sorted(set(kinds))}))
+            break
+
+
+def run_fontres(ctx: C.Ctx) -> None:
+    rng = ctx.rng
+    docs = [gen_fontres_doc(rng) for _ in range(ctx.n(45, 2500))]
+    check_fontres(ctx, docs)
 
 
 # ---------------------------------------------------------------------------------------------
@@ -2278,6 +2488,8 @@ def replay(ctx: C.Ctx, doc, from_corpus: bool = False) -> None:
         check_encodings(ctx, [(inp["base"], diff_from_json(inp["differences"]), [label])])
     elif op == "font":
         check_fonts(ctx, [(f2, [label + ":context"]) for f2 in inp.get("doc", [])] + [(inp["font"], [label])])
+    elif op == "fontres":
+        check_fontres(ctx, [(inp["doc"], [label])], label)
     elif op == "t1write":
         check_t1write(ctx, [(_sep_from_word(inp["pad"]), [_item_from_word(w) for w in inp["items"]])], label)
     elif op == "table":
@@ -2296,4 +2508,5 @@ def run(ctx: C.Ctx) -> None:
     run_t1write(ctx)
     run_names(ctx)
     run_encodings(ctx)
+    run_fontres(ctx)
     run_fonts(ctx)
